@@ -274,9 +274,11 @@ def _table(ds, start, end):
         "limit_events": lambda ev, n: list(_events(ev)[:n]),
         "merge_events_by_keys": lambda ev, ks: T.merge_events_by_keys(ev, ks),
         "chunk_events_by_key": lambda ev, k: T.chunk_events_by_key(ev, k),
-        "sort_by_timestamp": lambda ev: sorted(_events(ev), key=lambda e: e.timestamp),
-        "sort_by_duration": lambda ev: sorted(_events(ev), key=lambda e: e.duration, reverse=True),
-        "sum_durations": lambda ev: _td(seconds=sum(e.duration.total_seconds() for e in _events(ev))),
+        # the order among equal keys and the float rounding of the sum are the functions' own business (C16):
+        # they are borrowed, but on a copy of the list so that an in-place sort of the argument still shows
+        "sort_by_timestamp": lambda ev: T.sort_by_timestamp(list(_events(ev))),
+        "sort_by_duration": lambda ev: T.sort_by_duration(list(_events(ev))),
+        "sum_durations": lambda ev: T.sum_durations(list(_events(ev))),
         "concat": lambda a, b: list(_events(a)) + list(_events(b)),
         "union_no_overlap": lambda a, b: T.union_no_overlap(a, b),
         "flood": lambda ev: T.flood(ev),
@@ -430,7 +432,12 @@ def programs(draw, buckets, max_stmts=6, annotator_bias=False, allow_true_rebind
             k = draw(st.integers(0, 4))
             if k == 0 and depth > 0:
                 b = draw(st.sampled_from(buckets))
-                frag = b[: draw(st.integers(1, len(b)))]
+                # a fragment that identifies exactly one bucket (which of several matches find_bucket returns is not specified)
+                i0 = draw(st.integers(0, len(b) - 1))
+                i1 = draw(st.integers(i0 + 1, len(b)))
+                frag = b[i0:i1]
+                if sum(1 for x in buckets if frag in x) != 1:
+                    frag = b
                 args = [draw(lit_str([frag]))]
                 if draw(st.booleans()):
                     args.append(draw(lit_str(["host1"])))
